@@ -6,6 +6,7 @@ import (
 	"math/rand"
 	"sort"
 
+	"github.com/canopy-network/canopy/bft"
 	"github.com/canopy-network/canopy/fsm"
 	"github.com/canopy-network/canopy/lib"
 	"github.com/canopy-network/canopy/store"
@@ -73,6 +74,8 @@ func (c gateCase) clone() gateCase {
 	return d
 }
 
+var gateWorlds int
+
 type gateWorld struct {
 	n       *node
 	power   []uint64
@@ -129,6 +132,19 @@ func newGateWorld(power []uint64) (*gateWorld, error) {
 	}
 	if w.p2, e = n.propose(); e != nil {
 		return nil, e
+	}
+	// every other world: the node is a replica that has already validated the honest proposal in the bft round (its result
+	// is cached, as after the PROPOSE phase) - what arrives as "the block" must still carry a +2/3 certificate
+	gateWorlds++
+	if gateWorlds%2 == 0 {
+		hash, _ := new(lib.Block).BytesToBlockHash(w.p.block)
+		pq := &lib.QuorumCertificate{Header: &lib.View{NetworkId: 1, ChainId: 1, Height: w.h, RootHeight: w.h, Phase: lib.Phase_ELECTION_VOTE},
+			Block: w.p.block, BlockHash: hash, Results: w.p.results, ResultsHash: w.p.results.Hash(), ProposerKey: n.valKeys[0].PublicKey().Bytes()}
+		br, e2 := n.c.ValidateProposal(w.p.rcBuild, pq, &bft.ByzantineEvidence{DSE: bft.NewDSE()})
+		if e2 != nil {
+			return nil, e2
+		}
+		n.c.Consensus.BlockResult = br
 	}
 	// alternative certificate results (another reward recipient)
 	w.altRes = &lib.CertificateResult{RewardRecipients: &lib.RewardRecipients{PaymentPercents: []*lib.PaymentPercents{{Address: n.valKeys[2].PublicKey().Address().Bytes(), Percent: 100, ChainId: 1}}}, SlashRecipients: &lib.SlashRecipients{}}
